@@ -1,3 +1,5 @@
 import FuraxProofs.Lemmas.Scan
+import FuraxProofs.Lemmas.OpEq
 import FuraxProofs.Lemmas.Nary
 import FuraxProofs.Props.C01
+import FuraxProofs.Props.C07
